@@ -86,9 +86,9 @@ impl<RS: Read + Seek> SeekableChain<RS> {
 
 impl<RS: Read + Seek> Read for SeekableChain<RS> {
     fn read(&mut self, buf: &mut [u8]) -> std::io::Result<usize> {
-        if self.cur_idx >= self.chain.len() {
-            Ok(0)
-        } else {
+        // we loop here to skip empty readers. Returning 0 from an empty reader
+        // would wrongly signal the end of the data.
+        while self.cur_idx < self.chain.len() {
             // cur_idx is valid
             // read from current reader:
             let (max_pos, reader) = &mut self.chain[self.cur_idx];
@@ -100,14 +100,18 @@ impl<RS: Read + Seek> Read for SeekableChain<RS> {
             self.rel_pos += read as u64;
             self.abs_pos += read as u64;
             // check if we need to switch to the next reader
-            if self.rel_pos >= *max_pos {
+            let switch_to_next = self.rel_pos >= *max_pos;
+            if switch_to_next {
                 self.cur_idx += 1;
                 self.rel_pos = 0;
                 // seek new reader to 0? reader.seek(SeekFrom::Start(pos))?; for now do it at the beginning of read
             }
             // todo check whether optimizing to fill full buffer is faster
-            Ok(read)
+            if read > 0 || buf.is_empty() || !switch_to_next {
+                return Ok(read);
+            }
         }
+        Ok(0)
     }
 }
 
